@@ -3,6 +3,7 @@
    barrier stages and handlers, any batch sizes, any interleaving (every reachable state). *)
 From Coq Require Import Arith Lia.
 From DC Require Import Disruptor.Pipeline.
+From DC Require Disruptor.HB.
 
 (* in order, exactly once, no gaps: whenever a handler is about to handle a sequence, it is the successor of
    the last one it returned from (it starts at 1: see C04_seq0_never_delivered) *)
@@ -40,7 +41,23 @@ Proof.
   destruct (handled_only_published N H stage last Hle Hne s h i a Hr Hh Hp). lia.
 Qed.
 
+(* The same facts WITHOUT the atomic-snapshot abstraction of Pipeline.v: in Disruptor/HB.v every cursor is read one at
+   a time and a load may return ANY earlier store of the cursor (stale reads).  Whenever a handler is about to handle
+   i: i continues its own sequence; i is written and published; every earlier stage has returned from i; no later
+   stage has touched i; the producer has not begun the next lap of that slot. *)
+Theorem C04_delivery_percursor_stale_reads : forall N H stage last
+  (N_pos : 1 <= N)
+  (stage_le : forall h, h < H -> stage h <= last)
+  (stage_nonempty : forall k, k <= last -> exists h, h < H /\ stage h = k) s h i a,
+  HB.reachable N H stage last s -> h < H -> HB.hp s h = HB.HBatch i a ->
+  i = S (HB.done s h) /\
+  i <= HB.cursor s /\ i < HB.fill_ptr s /\
+  (forall g, g < H -> stage g < stage h -> i <= HB.done s g) /\
+  (forall g, g < H -> stage h < stage g -> HB.done s g < i) /\ HB.fill_ptr s <= i + N.
+Proof. exact HB.hb_delivery. Qed.
+
 Print Assumptions C04_in_order_exactly_once.
+Print Assumptions C04_delivery_percursor_stale_reads.
 Print Assumptions C04_only_written_and_published.
 Print Assumptions C04_payload_intact.
 Print Assumptions C04_seq0_never_delivered.
